@@ -35,6 +35,14 @@ def fixed_templates():
                [("if", True, ("bin", var("i"), "==", I(2)), [("text", "two"), ("continue",)], [("out", (var("i"), []))]), ("tablerow", "y", arr, None, I(2), None, [("out", (var("y"), [])), ("inc", "k")])], None)])
     T.append([("out", (var("missing"), [])), ("text", "never")])
     T.append([("text", "a"), ("out", (var("arr"), [])), ("out", (var("missing"), [])), ("text", "never")])
+    # writes performed by a block AFTER its body has raised break/continue (the buffered ifchanged body, tablerow's cell and row closers)
+    for irq in (("break",), ("continue",)):
+        T.append([("text", "a"), ("for", "i", ("cnt", I(1), I(3)), None, None, False, [("ifchanged", [("out", (var("i"), [])), irq]), ("text", "x")], None), ("text", "z")])
+        T.append([("tablerow", "x", arr, None, None, None, [("out", (var("x"), [])), irq]), ("text", "Z")])
+        T.append([("tablerow", "x", arr, I(2), None, None, [("out", (var("x"), [])), irq, ("text", "never")]), ("text", "Z")])
+        T.append([("for", "i", ("cnt", I(1), I(2)), None, None, False, [("tablerow", "x", arr, I(2), None, None, [("out", (var("x"), [])), irq]), ("text", ";")], None), ("text", "Z")])
+        T.append([("for", "i", ("cnt", I(1), I(3)), None, None, False, [("capture", "c", [("out", (var("i"), [])), irq]), ("out", (var("c"), [])), ("text", ",")], None), ("text", "Z")])
+        T.append([("for", "i", ("cnt", I(1), I(3)), None, None, False, [("ifchanged", [("ifchanged", [("out", (var("i"), [])), irq]), ("text", "y")]), ("text", "x")], None), ("text", "z")])
     T.append([])
     return T
 
